@@ -104,7 +104,7 @@ def handle (ts : Toks) : String :=
     let model := showResult res
     let realCore := real.filter isRecordOrEvent
     let agree := model == realCore
-    let fails := (lifecycleFailures r real ++
+    let fails := (lifecycleFailures r real ++ (real.filter (·.startsWith "XF:")).map (fun t => (t.drop 3).toString) ++
       (if real.head? == model.head? then [] else ["outcome-changed-by-plug-teardown-or-differs"])).eraseDups
     reply agree fails.isEmpty
       (if fails.isEmpty then (if agree then "ok" else "diff " ++ firstDiff model realCore)
